@@ -16,6 +16,7 @@
 
    `now` is the current date (year, month, day): the only use the code makes of the clock for absolute texts. *)
 From LR Require Import lib.Base model.GoTime model.Regex model.DateFmt model.DateOk model.LqlTime gen.DateTables.
+From LR Require Import gen.Consts.
 From LR Require Import proofs.GoTimeP proofs.RegexP proofs.DateFmtP proofs.LqlTimeP proofs.C20TablesP model.LineParse proofs.LineParseP.
 From Coq Require Import Strings.String.
 Open Scope Z_scope.
@@ -195,3 +196,7 @@ Proof. exact civil_ok_sat. Qed.
 
 Example C20_self_nonvacuous : In f_iso all_formats.
 Proof. apply in_by_eqb; vm_compute; reflexivity. Qed.
+
+(* the line parser's thresholds are the ones line_parser.go has now (coq/gen/Consts.v is regenerated on every run) *)
+Example C20_constants : max_fail = go_lineParserMaxFailCnt /\ lp_max_skip lp_init = go_lineParserMaxSkipCnt.
+Proof. split; reflexivity. Qed.
